@@ -5,3 +5,12 @@ HARNESSES = {
     'Matrix': dict(mode='X', split={'shape': 2}, validate=0),
     'Interpolation': dict(mode='X', validate=0),
 }
+
+BOUNDS = {
+    'Clamp': 'bit exact, every float64 with |x| < 2^31, all four spreads',
+    'AtStops': '2 stops with concrete offsets and symbolic colours (quick); 2-3 stops with symbolic strictly increasing float32 offsets (thorough); offset an arbitrary float64 in the stated region',
+    'AtGeometry': 'symbolic float64 matrix, any int32 pixel, both shapes, all spreads; relational against the specification colour function',
+    'Matrix': 'exact-real reading, 48x20 raster, symbolic viewBox and register matrix, any pixel-space point',
+    'Interpolation': 'exact-real reading, one range',
+}
+OUTSIDE = 'bit-exact premultiplication of interpolated colours (float64 monotonicity: timeouts) - claimed in exact reals only; stop lists longer than 3; rounding error of the matrix'
